@@ -19,7 +19,8 @@ def run(ctx):
                 "under weak fairness. A: edge cover of the dumped graph replayed with an item budget (a hang is a verdict). "
                 "B: random truncated / garbage sources traced and validated by Trace_Framer; also through "
                 "XtcePacketDefinition.packet_generator. Real file objects of every flavour (read-only, small buffer, read/write with pending "
-                "or partly flushed writes, temporary, BufferedReader, gzip / bz2 / lzma) are compared with the validated in-memory runs. distinct = distinct (kind, read size, prefix, stream, chunks).")
+                "or partly flushed writes, temporary, BufferedReader, gzip / bz2 / lzma) are compared with the validated in-memory runs, and every "
+                "source kind is framed again with show_progress=True (empty, truncated, early close). distinct = distinct (kind, read size, prefix, stream, chunks).")
     ctx.assumptions = ["a socket recv() returning b'' means the peer closed (end of stream)",
                        "TLC 1.8 and CommunityModules Json/IOUtils are correct"]
     consts = {"TrimAt": 5, "DefaultSock": 4, "AsIs": "FALSE", "Eager": "FALSE", "DataLens": tla_set([1, 2, 3]),
@@ -93,6 +94,15 @@ def run(ctx):
     cases.append((_mk_stream(rng, packets, [1018] * 32, 0), 4096, 0, 24 * 1024))      # 1 KiB packets, flushed at a block and packet boundary
     cases.append((b"", 0, 0, 0))
     fc.os_sources_section(ctx, "C10", cases)
+    # ---- show_progress=True must not change how a source is framed or how the generator ends (empty input, truncation, early close)
+    pcases = []
+    for kind in ("bytes", "file", "rfile", "sock"):
+        for data_ in (b"", b"\x08", b"\x08\x01\xc0\x00\x00", _mk_stream(rng, packets, [3], 0)[:-1], _mk_stream(rng, packets, [3, 1], 2),
+                      _mk_stream(rng, packets, [7, 2, 300], 0)[:-5], bytes(3), _mk_stream(rng, packets, [1], 4)[:3]):
+            for rsize in (0, 4):
+                pcases.append((data_, kind, rsize, 4 if len(data_) == 3 and data_ != bytes(3) else (2 if len(data_) == 18 else 0)))
+    fc.progress_option_section(ctx, "C10", pcases)
+    fc.progress_option_section(ctx, "C10", [(c[0], c[1], c[2], c[3]) for c in pcases[::5]], via=_Via)
     hangs = sum(1 for r in runs if r[5]["outcome"] != "stop")
     ctx.extra["runs_not_terminating_or_raising"] = hangs
     ctx.sample({"direction": "code->spec", "label": runs[3][5]["label"], "kind": runs[3][1], "rsize": runs[3][2],
